@@ -15,6 +15,7 @@ partial def dispatch (j : Json) : R Json := do
   | "gen" => handleGen j
   | "world" => handleWorld j
   | "solo" => handleSolo j
+  | "generated" => handleGenerated j
   | "parse" => handleParse j
   | "tower" => handleTower j
   | "page" => handlePage j
